@@ -6,10 +6,12 @@ extra TrainingStateParams, a user entry, explicit `epoch=` argument), a metric h
 first rounds —, or a float = the metric itself, any magnitude, on or off the grid of the 5 significant
 digits the history file records: `mval`, `recorded_value`), and a crash schedule [(epoch, k, torn[, soft]), ...]:
 session i starts a NEW controller on the files left behind, loads the last recorded epoch, trains
-on, and is killed at mutating call number k of the update for `epoch` (session i never reaches that
-point -> it simply completes); `torn`: call k is executed half-way when it is a torch.save or the
-write of a history data row; `soft`: the death is an interrupt that unwinds through the library's
-handlers (c16_fs). After the schedule one more session runs to the end.
+on, and is killed at file-system mutation number k of the update for `epoch` (c16_fs events, whichever
+API makes them; session i never reaches that point -> it simply completes); `torn`: event k is
+executed half-way when it is a write of bytes (a state dict, a history data row); `soft`: the death
+is an interrupt that unwinds through the library's handlers (c16_fs). After the schedule one more
+session runs to the end. What an update did is reported as the STATE CHANGES it made (`abstract_trace`),
+what it left as the state of the directory (`snapshot`).
 
 "Training" is deterministic. So that every state is recognisable, the model holds one float64 `w` and the
 optimizer one integer `tag` in its first parameter group; epoch e turns (w, t) into (3w + e, 5t + e) —
